@@ -156,7 +156,16 @@ func (s *Server) Close() {
 	// Service.Close releases listeners and sessions. Run() itself does not return
 	// (the mux default listener's Accept is not woken by Close); that goroutine is
 	// constant per server and irrelevant to any property, so it is not waited for.
-	_ = s.Svc.Close()
+	// bounded: a server wedged by the code under test (a lock left held) must not wedge the check as well - the
+	// case's own verdict has been computed by now; the block is then not reused
+	closed := make(chan struct{})
+	go func() { _ = s.Svc.Close(); close(closed) }()
+	select {
+	case <-closed:
+	case <-time.After(8 * time.Second):
+		s.cancel()
+		return
+	}
 	s.cancel()
 	if !s.closeExtra() && s.Cfg.VhostHTTPPort > 0 && s.Cfg.VhostHTTPPort != s.Cfg.BindPort {
 		// without the hook the vhost HTTP listener stays bound: never reuse this block
